@@ -93,11 +93,11 @@ claim("C15",
       "and clang's constant evaluation of the zlib/zstd macros.")
 
 claim("C19",
-      "taint + dominating-guard rule over abstract paths of mtbl_reader_init_fd (sources: values decoded from mapped bytes; sinks: T-extent readers), loop-bound derivation for the varint decoder, decision tables of block_init/block_iter_init",
+      "taint + dominating-guard rule over abstract paths of mtbl_reader_init_fd (sources: values decoded from mapped bytes; sinks: T-extent readers), loop-bound derivation for the varint decoder, abstract interpretation of the block reader on arbitrary bytes",
       "Decides: on every path of the open function each read of the mapping whose offset or length contains a file-derived quantity (trailer fields, "
       "fixed/varint decodes) is preceded by a comparison of an expression containing that quantity with a file-size-derived expression, continuing on "
       "the in-bounds side (a 64-bit file-derived value compared only inside a sum needs an accompanying wrap check; a bound formed by subtracting constants from the file size needs the size established first); the trailer read is preceded by size >= 512; the varint decoder touches at most 10/5 bytes (derived from its loop); "
-      "block_init marks every inconsistent restart layout empty and block_iter_init stops on blocks shorter than 8 bytes. Presence and dominance of the "
+      "the real block_init / block_iter_init / seek_to_first / next, interpreted on byte strings that are not blocks (lengths 0..24, three fill patterns, every interesting value in the last four bytes), end in an assertion or a clean walk and never access anything outside the bytes given. Presence and dominance of the "
       "guards are decided, not the algebra of each inequality (overflow corner cases of the arithmetic are not decided). Also decides (R3) that the file length, index offset/length and cached block offset are 64 bits wide and never narrowed on the way to a comparison or pointer computation; re-runs C17.R2 (C19.D.*): the checksum routine consumes exactly the extent it is handed.",
       "Trusts T-extent (which callee reads how many bytes), mmap/fstat contracts, and data-block lengths at get_block being outside this property's statement.")
 
@@ -154,25 +154,23 @@ claim("C09",
       "sibling/table agreement of writer-side emit sequences (abstract path evaluation) with the declarative MTBL v2 format table; path rules for CRC scope, restart cadence, size gate and offset bookkeeping",
       "Decides: an entry is emitted as varint32 shared / non_shared / value_len, key suffix from key+shared, value, each at the write cursor which advances by exactly what was written; "
       "shared is the common prefix with the previous key; the restart array is u32le (u64le iff the entries region exceeds UINT32_MAX) followed by the u32le count, and the size estimate "
-      "agrees with it; a framed block is varint64 length, 4-byte little-endian CRC32C, stored bytes, and the returned size is their sum; the checksum is taken over (data,len_data) of the "
-      "same block after their last definition and nothing between compression and the file changes them; restart cadence and reset table; a block is cut iff estimate+15+len_key+len_val "
-      ">= block_size; the index entry carries the offset the block started at and pending_offset starts at the descriptor's offset and grows by the bytes written; trailer layout as in C10; every increment applied to separator bytes is guarded against wrap-around and a value computed from a multi-byte read is written back whole (the index key cannot drop below the block's last key that way). "
+      "agrees with it; what the writer hands to the write loop per block - decided on the paths of the data-block writer and the finishing function with every static function of writer.c in line, each buffer decomposed into the pieces the codecs put into it - parses as varint64 length, 4-byte CRC32C, stored bytes of one and the same block (the checksum stored little-endian and written raw, or kept in host order and encoded where it is written, never a mixture); the checksum is taken over (data,len_data) of the "
+      "same block after their last definition and nothing between compression and the file changes them; restart cadence; a builder finished by the writer is fit for the next block (interpreted: the second block, read by the real iterator, holds exactly the next entries); a block is cut iff estimate+15+len_key+len_val "
+      ">= block_size; the index entry carries the offset the block started at, and the file cursor (the writer field set from lseek at init, under whatever name) is advanced exactly once per frame by the frame's bytes; trailer layout as in C10; every increment applied to separator bytes is guarded against wrap-around and a value computed from a multi-byte read is written back whole (the index key cannot drop below the block's last key that way). "
       "The bytes of real files (which need an independent decoder run on outputs) and the separator arithmetic are not decided. Also decides that every block record reaching the block-writing function has had its crc field stored on every path, inline or through the pool's work function (definite assignment); re-runs C16 and C17 (C09.D.*). Also decides the container contract of libmy/vector.h (the macro all buffers, restart arrays, heap arrays and entry lists are generated from) with an allocation-aware interpreter: in 36 scenarios per family (1-byte, 8-byte integer and pointer elements) every operation keeps the representation invariant, preserves the elements, meets its post-condition and stays inside live allocations. Also decides, by interpreting the real block builder on builders whose entry buffer is tightened to size+d bytes before every add and before finish (d = 0..11, 0..23 thorough), that every write stays inside what was reserved and the finished size is entries + 4 per restart + 4. The entry row and block trailer of the format are decided on the bytes the real block builder produces when interpreted on entries of concrete lengths (0..131, single- and multi-byte headers) and symbolic bytes: varint(shared) varint(non_shared) varint(value_len) suffix value with truly shared bytes, restart points every interval entries, 32-bit little-endian restart offsets and their count.",
       "Trusts T-format (written from the LevelDB block format and mtbl's documentation), the varint/fixed codecs (decided separately by C16), loop bound 1.")
 
 claim("C11",
-      "sibling agreement of the three reader-side framing decoders per format version (additive-term comparison of pointer expressions from abstract paths), mirror rules for the restart array, parse-sequence table check",
+      "sibling agreement of the three reader-side framing decoders per format version (additive-term comparison of pointer expressions from abstract paths), abstract interpretation (allocation-aware) of the block iterator on independently encoded blocks",
       "Decides: in mtbl_reader_init_fd, get_block and mtbl_verify's block loop, for V1 and V2 alike, the length is read at +0, the stored CRC at +length-of-length and the payload at "
-      "+length-of-length+4 with the decoded length; each magic maps to its version and others are refused; the reader interprets restart offsets as 64-bit under the writer's threshold with "
-      "matching element widths and reads the count from the last four bytes; the single-byte fast path requires all three values < 128; an entry is rebuilt as clip(previous key, shared) ++ "
-      "non_shared bytes with the value after it, nothing in the reader reads the writer's restart interval, and outside metadata.c and the writer nothing reads the trailer's statistics fields. Behaviour on legal encodings today's writer never produces is exactly what "
-      "only an independent encoder can exercise; it is not decided. Re-runs C02, C03 and C16 (C11.D.*): lookups, seeks and integer decoding on independently encoded files go through exactly those paths.",
+      "+length-of-length+4 with the decoded length; each magic maps to its version and others are refused; the real block iterator, interpreted on blocks laid out by an encoder of the format that is independent of the library's builder - restart points at every entry / some / only the first, maximal / partial / no sharing, one- and multi-byte headers, empty keys and values, sparse blocks with entries regions of 2^32-1, 2^32 and more bytes (32- versus 64-bit restart words exactly at the boundary) - reports every encoded entry bit for bit and nothing after the last, and block_iter_seek on concrete keys ends on the first entry >= target from a fresh iterator and from every position; "
+      " nothing in the reader reads the writer's restart interval, and outside metadata.c and the writer nothing reads the trailer's statistics fields. Whole files from an independent encoder (index separators anywhere in the legal interval, compression) are not interpreted; the index search rests on C02/C03. Re-runs C02, C03 and C16 (C11.D.*): lookups, seeks and integer decoding on independently encoded files go through exactly those paths.",
       "Trusts T-format, additive parsing of pointer expressions (no subtraction), loop bound 1.")
 
 claim("C01",
-      "writer/reader entry codec agreement against the format table, exactly-once pass-through and life-cycle rules over abstract paths, decision table of mtbl_dump's filter",
-      "Decides: block_builder_add's emit sequence and decode_entry/parse_next_key's parse sequence both equal the entry row of T-format (hence each other), a header value written as one raw byte being accepted only with a `< 128` proof on the path; every accepted add reaches the data "
-      "block builder exactly once with the caller's key/value after any block cut and a refused add never does; a finished builder is reset before reuse, a cut block goes either to the pool "
+      "writer/reader entry codec agreement against the format table, exactly-once pass-through and life-cycle rules over abstract paths, decision table of mtbl_dump's filter; abstract interpretation (allocation-aware, symbolic bytes) of the block builder and of the block iterator",
+      "Decides: the bytes the real block builder produces for entries of concrete lengths and symbolic contents equal the entry row and block trailer of T-format, and the real block iterator, interpreted on blocks laid out by an encoder of the format that is independent of the builder (every legal restart placement and amount of sharing, one- and multi-byte headers, sparse blocks beyond 4 GiB with 64-bit restart words, seeks on concrete keys from every iterator state), reports exactly the encoded entries; every accepted add reaches the data "
+      "block builder exactly once with the caller's key/value after any block cut and a refused add never does; a builder the writer has finished a block with yields, after whatever the writer calls on it next, a block holding exactly the next entries (interpreted, read back by the real iterator), a cut block goes either to the pool "
       "once or is compressed then written once, finish runs flush < join < index block < one 512-byte trailer; an exhausted block makes next advance the index once, load the block it names "
       "and position at its first entry, failing only at the end of the index; mtbl_dump prints an entry iff not silent and both prefix tests (length and bytes) and both minimum lengths hold. "
       "That prefix sharing, restart offsets and block cuts compose to the identity for every key sequence and configuration, and the compression libraries, are not decided. Also decides (R6) that the quantity block_builder_empty tests is emptied by reset and grows by a provably positive amount on every path of block_builder_add, so no non-empty block is skipped at flush; and re-runs the rules of C20 and C16 (labelled C01.D.*) because the round trip rests on them. Also decides the container contract of libmy/vector.h (the macro all buffers, restart arrays, heap arrays and entry lists are generated from) with an allocation-aware interpreter: in 36 scenarios per family (1-byte, 8-byte integer and pointer elements) every operation keeps the representation invariant, preserves the elements, meets its post-condition and stays inside live allocations. Also decides, by interpreting the real block builder on builders whose entry buffer is tightened to size+d bytes before every add and before finish (d = 0..11, 0..23 thorough), that every write stays inside what was reserved and the finished size is entries + 4 per restart + 4. Also decides the dispatch wiring of the mtbl_iter / mtbl_source function tables (registration, wrappers, construction sites). The entry row and block trailer of the format are decided on the bytes the real block builder produces when interpreted on entries of concrete lengths (0..131, single- and multi-byte headers) and symbolic bytes: varint(shared) varint(non_shared) varint(value_len) suffix value with truly shared bytes, restart points every interval entries, 32-bit little-endian restart offsets and their count.",
@@ -180,9 +178,9 @@ claim("C01",
 
 claim("C12",
       "must-pass-through of a NORETURN-guarded CRC comparison over exactly the decoded bytes on every verify-enabled path to block decoding, who-may-call rules, loop/propagation rules for mtbl_verify, liveness of assert in the build",
-      "Decides: blocks become decodable only through get_block and mtbl_reader_init_fd and stored bytes are decompressed only in get_block; on each of their paths with verify_checksums set, "
+      "Decides: blocks become decodable only in the functions of reader.c that call block_init (the gate functions, under whatever name; helpers they are split into are evaluated as part of them) and stored bytes are decompressed only there; on each of their paths with verify_checksums set, "
       "the stored CRC (the four bytes in front of the payload) is required equal to mtbl_crc32c over exactly the (pointer,length) later handed to decompression/block_init, with the failing edge "
-      "NORETURN; the writer-side CRC scope of C09.R2; mtbl_verify visits every data block, returns false on a mismatch or overrun, prints OK and exits 0 only when everything verified, and opens "
+      "NORETURN; the writer-side CRC scope of C09.R2; mtbl_verify (decided on the paths of verify_file with its helpers in line: the number of blocks checked on a path that reports OK is the only value of the trailer's block count that the path's own tests admit) visits every data block, returns false on a mismatch or overrun, prints OK and exits 0 only when everything verified, and opens "
       "the reader with verification on so the index block is covered; asserts are compiled in (no NDEBUG, 60+ live failure edges). Detection strength of CRC-32C is mathematics and the implementation "
       "is C17. Re-runs C17 (C12.D.*): an intact file verifies only if writer and verifier compute the same standard CRC-32C.",
       "Trusts clang's NORETURN knowledge of __assert_fail, the flags reported by make -n / Makefile.am / config.status, loop bound 1.")
